@@ -389,6 +389,8 @@ func classifyCred(mi *methodInfo, kind string, sent, got []string) string {
 		return "bearer-token-empty"
 	case inHeader && s != "" && (s[0] == '\t' || s[len(s)-1] == '\t'):
 		return "header-credential-trimmed"
+	case hidesImplicit(mi.M, attr) && len(got) == 1 && got[0] == "":
+		return "inline-body-hides-implicit-credential"
 	}
 	l := loc
 	if i := strings.Index(l, ":"); i >= 0 {
@@ -481,7 +483,7 @@ func judge(res *vh.Result, idx int, mi *methodInfo, ex exchange, ob *rt.Obs, dec
 	}
 	// 2b. on the wire every credential of the effective requirements sits in the place the
 	// design gives it, and nowhere in the body unless the body is that place
-	if (ex.Stream == "main" || strings.HasPrefix(ex.Stream, "witness:inline-body")) && ob.Req != nil && len(eff) > 0 {
+	if (ex.Stream == "main" || ex.Stream == "witness:inline-body-sends-whole-payload") && ob.Req != nil && len(eff) > 0 {
 		q, _ := url.ParseQuery(ob.Req.Query)
 		var body any
 		_ = json.Unmarshal([]byte(ob.Req.Body), &body)
@@ -718,4 +720,20 @@ func coqAttr(mi *methodInfo, goField string) string {
 		return "AKey " + vh.CoqString(apiKeyName(mi.D))
 	}
 	return "AKey " + vh.CoqString("?"+goField)
+}
+
+// hidesImplicit: the method has an explicit inline-object body that does not list attr, and attr
+// is mapped nowhere (finding inline-body-hides-implicit-credential: goa then treats it as a body
+// attribute and the credential is dropped).
+func hidesImplicit(m *dg.Method, attr string) bool {
+	return m.HTTP != nil && m.HTTP.Body != nil && len(m.HTTP.Body.Attrs) > 0 && locFromMethod(m, attr) == "implicit"
+}
+
+func anyHiddenImplicit(m *dg.Method) bool {
+	for _, a := range payloadAttrs(m) {
+		if a != attrUser && a != attrPass && hidesImplicit(m, a) {
+			return true
+		}
+	}
+	return false
 }
